@@ -135,12 +135,24 @@ type verifWheelCase struct {
 	// keys whose execute callback / drain function call panics after having been recorded ("*": all)
 	PanicExec  []string `json:"panic_exec"`
 	PanicDrain []string `json:"panic_drain"`
+	// key -> a wheel call for the SAME key made from inside its execute callback (first firing only)
+	Rearm map[string]verifWheelCall `json:"rearm"`
 }
 
 type verifWheelObs struct {
-	Err     int         `json:"err"` // 0 nil, 1 ErrClosed, 2 ErrArgument, 3 panic
-	Fired   []verifPair `json:"fired"`
-	Drained []verifPair `json:"drained"`
+	Err     int            `json:"err"` // 0 nil, 1 ErrClosed, 2 ErrArgument, 3 panic
+	Fired   []verifPair    `json:"fired"`
+	Drained []verifPair    `json:"drained"`
+	Rearmed []verifRearmed `json:"rearmed"` // wheel calls made from inside callbacks of this call's batch, in order
+}
+
+type verifRearmed struct {
+	Op    string `json:"op"`
+	Key   string `json:"key"`
+	Val   int    `json:"val"`
+	Delay int64  `json:"delay"`
+	Err   int    `json:"err"`
+	call  int
 }
 
 func verifKey(k *string) any {
@@ -168,9 +180,12 @@ type verifGates struct {
 	armed                 map[string]chan struct{} // hold: key -> gate not yet reached
 	holding               map[string]chan struct{} // gates a callback is blocked on
 	drainGate             chan struct{}
-	blocked               int32           // callbacks currently blocked on a gate (taken off by the releaser)
-	drainWaiters          int             // of which: drain function calls
-	pump                  int32           // tick deliveries in flight (run loop busy inside drainAll)
+	blocked               int32 // callbacks currently blocked on a gate (taken off by the releaser)
+	drainWaiters          int   // of which: drain function calls
+	pump                  int32 // tick deliveries in flight (run loop busy inside drainAll)
+	rearm                 map[string]verifWheelCall
+	rearmed               []verifRearmed
+	wheel                 *TimingWheel
 	panicExec, panicDrain map[string]bool // keys whose callback panics after being recorded; read-only
 }
 
@@ -185,6 +200,24 @@ func (g *verifGates) exec(k, v any) {
 		g.batch[gid] = c
 	}
 	g.fired = append(g.fired, verifEvent{verifPair{ks, vi}, c})
+	inner, rearm := g.rearm[ks]
+	delete(g.rearm, ks)
+	g.mu.Unlock()
+	if rearm && g.wheel != nil { // the callback calls the wheel for its own key, then (possibly) stays busy on a gate
+		e := 0
+		switch inner.Op {
+		case "set":
+			e = verifErrCode(g.wheel.SetTimer(ks, inner.Val, time.Duration(inner.Delay)))
+		case "move":
+			e = verifErrCode(g.wheel.MoveTimer(ks, time.Duration(inner.Delay)))
+		case "remove":
+			e = verifErrCode(g.wheel.RemoveTimer(ks))
+		}
+		g.mu.Lock()
+		g.rearmed = append(g.rearmed, verifRearmed{Op: inner.Op, Key: ks, Val: inner.Val, Delay: inner.Delay, Err: e, call: c})
+		g.mu.Unlock()
+	}
+	g.mu.Lock()
 	gate := g.armed[ks]
 	if gate != nil {
 		delete(g.armed, ks)
@@ -258,7 +291,10 @@ func verifWheel(raw json.RawMessage) any {
 		return map[string]any{"error": err.Error()}
 	}
 	g := &verifGates{batch: map[uint64]int{}, armed: map[string]chan struct{}{}, holding: map[string]chan struct{}{}, lastDrain: -1,
-		panicExec: map[string]bool{}, panicDrain: map[string]bool{}}
+		panicExec: map[string]bool{}, panicDrain: map[string]bool{}, rearm: map[string]verifWheelCall{}}
+	for k, v := range c.Rearm {
+		g.rearm[k] = v
+	}
 	for _, k := range c.PanicExec {
 		g.panicExec[k] = true
 	}
@@ -279,7 +315,11 @@ func verifWheel(raw json.RawMessage) any {
 	if err != nil {
 		return map[string]any{"new_ok": false, "obs": []verifWheelObs{}, "timeouts": 0}
 	}
+	g.mu.Lock()
+	g.wheel = w
+	g.mu.Unlock()
 	base := base0 + 1
+	exitPending := false // Stop issued while the loop is inside a held drainAll: it exits after the hand-over
 	stopped := false
 	drainHeld := false // Drain issued while the drain gate is armed: the run loop may be busy
 	gd := verifNewGuard()
@@ -332,8 +372,11 @@ func verifWheel(raw json.RawMessage) any {
 			if drainHeld { // the loop may sit inside drainAll: deliver without waiting for it
 				atomic.AddInt32(&g.pump, 1)
 				go func() {
+					defer func() {
+						_ = recover() // the loop may exit (Stop) and close the ticker under a queued tick
+						atomic.AddInt32(&g.pump, -1)
+					}()
 					ticker.Tick()
-					atomic.AddInt32(&g.pump, -1)
 				}()
 			} else {
 				gd.run("Tick blocked: ticker buffer full", ticker.Tick)
@@ -342,6 +385,9 @@ func verifWheel(raw json.RawMessage) any {
 		case "stop":
 			if panicked, _ := verifdrv.Catch(w.Stop); panicked {
 				e = 3
+			} else if drainHeld {
+				stopped = true // the loop is busy inside drainAll: it sees the closed channel after the hand-over
+				exitPending = true
 			} else {
 				closed()
 				stopped = true
@@ -369,6 +415,11 @@ func verifWheel(raw json.RawMessage) any {
 					consumed()
 				}
 				drainHeld = false
+			}
+			if exitPending {
+				closed()
+				base = base0
+				exitPending = false
 			}
 		}
 		errs[idx] = e
@@ -404,6 +455,10 @@ func verifWheel(raw json.RawMessage) any {
 		consumed()
 		barrier()
 	}
+	if exitPending {
+		closed()
+		base = base0
+	}
 	settle("callbacks still running at the end of the case")
 	if hung == "" {
 		hung = fin.hung
@@ -416,8 +471,15 @@ func verifWheel(raw json.RawMessage) any {
 	}
 	obs := make([]verifWheelObs, len(c.Calls))
 	for i := range obs {
-		obs[i] = verifWheelObs{Err: errs[i], Fired: []verifPair{}, Drained: []verifPair{}}
+		obs[i] = verifWheelObs{Err: errs[i], Fired: []verifPair{}, Drained: []verifPair{}, Rearmed: []verifRearmed{}}
 	}
+	g.mu.Lock()
+	for _, r := range g.rearmed {
+		if r.call < len(obs) {
+			obs[r.call].Rearmed = append(obs[r.call].Rearmed, r)
+		}
+	}
+	g.mu.Unlock()
 	late := 0
 	g.mu.Lock()
 	for _, ev := range g.fired {
